@@ -738,7 +738,7 @@ def run(tier, seed):
     scratch = C.scratch("c10")
     try:
         # (b) directives
-        n = 60000 if tier == "thorough" else 5000
+        n = 60000 if tier == "thorough" else 4000
         jobs, ops, _ = gen_linkname_files(chk.rng, n)
         p = C.run_gvh(["linkname"], jobs, name="gvh_c10")
         if p.returncode != 0:
@@ -758,7 +758,7 @@ def run(tier, seed):
         finding_dotted(chk, scratch)
         C.log("[C10] build errors / witness done %.0fs" % (time.time() - chk.t0))
         # (a)+(c) programs
-        nprog = 100 if tier == "thorough" else 14
+        nprog = 100 if tier == "thorough" else 10
         total = program_tie(chk, tier, scratch, nprog)
         if chk.tie_breaks or [m for m in chk.mismatches if not chk.known_match(m.get("signature"))]:
             # a tie broke: search harder for an input on which the property itself fails
